@@ -143,7 +143,9 @@ func drawFlags(t *rapid.T, g *gspec.Grammar) genFlags {
 				names = append(names, r.Name)
 			}
 		}
-		n := 1 + gspec.U(t, 2, "nalt")
+		// (empty items - "A,,", ",", ",,B" - are part of what the flag accepts)
+		names = append(names, "", "")
+		n := 1 + gspec.U(t, 4, "nalt")
 		for i := 0; i < n; i++ {
 			f.AltEntries = append(f.AltEntries, gspec.Pick(t, names, "altname"))
 		}
